@@ -17,9 +17,12 @@ EXPLANATION = (
     "enclosing handler that re-raises a syntax error, by a regex guard whose group language lies in the callee's domain (decided "
     "on the regex AST), or by a reviewed exemption; every use of the result of an EOF-returning reader is preceded by an "
     "`is ctx.eof` test that raises eof_error; dispatch keys agree with the asserts of the readers registered under them; "
-    "_with_loc readers are entered at the first character of their form; the REPL maps exactly UnexpectedEOFError to 'keep reading'."
+    "_with_loc readers are entered at the first character of their form; the REPL maps exactly UnexpectedEOFError to 'keep reading'. "
+    "Termination: every cycle of every reader loop consumes from the stream (consumption summaries computed as a least fixpoint over "
+    "the reader's call graph), every loop exits in the abstract state 'stream exhausted' (an abstract execution in which every read "
+    "returns '' has no cycle in its state graph), and no recursion between stream readers re-enters before a character was consumed."
 )
-DECIDES = "only syntax errors escape (may-raise over the reader's call graph), EOF sentinel never embedded and reported as UnexpectedEOFError, dispatch/assert agreement, span start of located readers, REPL cue"
+DECIDES = "only syntax errors escape (may-raise over the reader's call graph), EOF sentinel never embedded and reported as UnexpectedEOFError, dispatch/assert agreement, span start of located readers, REPL cue, termination of the reader's loops and recursion (progress + exit at end of input)"
 DECLINED = "line/column arithmetic under CR/CRLF and multi-byte input, equality of the re-read span (runtime values)"
 TRUSTED = ["FT-raise: exception classes of int/float/chr/Decimal/Fraction/re.compile/uuid/set on bad input, incl. the 4300-digit int() limit for non power-of-two bases"]
 ASSUMPTIONS = ["user-supplied data readers and resolvers are outside the property (their exceptions are theirs)"]
@@ -629,6 +632,584 @@ def r7_incomplete_before_malformed(ctx):
 
 
 # ---------------------------------------------------------------------------------------------
+# R5 termination: progress on every loop cycle, exit at end of input, no recursion without progress
+
+CONSUME = {"next_char", "advance"}
+READS = {"next_char", "advance", "peek"}
+TABLE_NAMES = ("_read_dispatch", "_read_macro_dispatch")
+TOP, EMPTY, SENT = "TOP", "E", "S"
+
+R5_REVIEWED = {
+    "_read_num": "entered only where begin_num_chars matched the peeked character (checked at every call site); '-' is consumed by "
+                 "next_char and every other begin_num_chars character matches maybe_num_chars (checked on the two patterns), so it is consumed too",
+    "_read_namespaced": "returns normally only with a non-empty identifier: identifier_literal.fullmatch('') is None -> syntax error "
+                        "(checked), and every token appended was consumed in the same block (checked)",
+}
+
+
+def _reader_aliases(fn):
+    al = {"ctx.reader"}
+    for n in ast.walk(fn):
+        if isinstance(n, ast.Assign) and P.un(n.value) == "ctx.reader":
+            for t in n.targets:
+                if isinstance(t, ast.Name):
+                    al.add(t.id)
+    return al
+
+
+def _reader_op(call, aliases):
+    if isinstance(call, ast.Call) and isinstance(call.func, ast.Attribute) and P.un(call.func.value) in aliases:
+        return call.func.attr
+    return None
+
+
+def _tables(ctx):
+    out = {}
+    for tbl in TABLE_NAMES:
+        v = P.module_assign(_tree(ctx), tbl)
+        if not isinstance(v, ast.Dict):
+            raise AnalysisError(f"anchor vanished: reader.{tbl}")
+        out[tbl] = {k.value: val for k, val in zip(v.keys, v.values) if isinstance(k, ast.Constant)}
+    return out
+
+
+def _node_calls(nd):
+    if nd.ast is None or nd.kind not in ("stmt", "test", "iter", "with"):
+        return []
+    if isinstance(nd.ast, (ast.FunctionDef, ast.AsyncFunctionDef, ast.ClassDef)):
+        return []
+    return [c for c in P.walk_local(nd.ast, include_self=True) if isinstance(c, ast.Call)]
+
+
+def _certain(expr, pred) -> bool:
+    """Does evaluating `expr` to completion certainly evaluate a call satisfying pred?  (an IfExp needs
+    it in both arms, a BoolOp in its first operand, comprehensions and lambdas never count)"""
+    if isinstance(expr, ast.Call):
+        if pred(expr):
+            return True
+        return _certain(expr.func, pred) or any(_certain(a, pred) for a in expr.args) or any(_certain(k.value, pred) for k in expr.keywords)
+    if isinstance(expr, ast.IfExp):
+        return _certain(expr.test, pred) or (_certain(expr.body, pred) and _certain(expr.orelse, pred))
+    if isinstance(expr, ast.BoolOp):
+        return _certain(expr.values[0], pred)
+    if isinstance(expr, (ast.Lambda, ast.ListComp, ast.SetComp, ast.DictComp, ast.GeneratorExp, ast.FunctionDef, ast.AsyncFunctionDef, ast.ClassDef)):
+        return False
+    if isinstance(expr, ast.AST):
+        return any(_certain(c, pred) for c in ast.iter_child_nodes(expr))
+    return False
+
+
+class _Progress:
+    """Which functions of the reader certainly consume at least one character before they return
+    normally (least fixpoint over the call graph, seeded with the two reviewed-and-checked readers)."""
+
+    def __init__(self, ctx, fns):
+        self.fns = fns
+        self.tables = _tables(ctx)
+        self.regexes = _regex_table(ctx)
+        self.cfgs = {n: CFG(f) for n, f in fns.items()}
+        self.aliases = {n: _reader_aliases(f) for n, f in fns.items()}
+        self.peeked = {
+            n: {P.un(s.targets[0]) for s in ast.walk(f) if isinstance(s, ast.Assign) and len(s.targets) == 1 and _reader_op(s.value, self.aliases[n]) == "peek"}
+            for n, f in fns.items()
+        }
+        self.condc = self._cond_consumers()
+        self.guarded = {w: self._guarded_everywhere(w) for w in self.condc}
+        self.consuming = set(n for n in R5_REVIEWED if n in fns)
+        changed = True
+        while changed:
+            changed = False
+            for name in fns:
+                if name in self.consuming:
+                    continue
+                g = self.cfgs[name]
+                prog = self.progress_nodes(name)
+                if g.exit.id not in g.reach([g.entry], avoid=prog, follow_exc=False):
+                    # vacuous for functions that never return normally
+                    self.consuming.add(name)
+                    changed = True
+
+    def _guard_pred(self, name, rx):
+        peeked = self.peeked[name]
+
+        def guard(a, b, lab):
+            t = a.ast
+            return a.kind == "test" and lab is True and isinstance(t, ast.Call) and P.un(t.func) == f"{rx}.match" and len(t.args) == 1 and P.un(t.args[0]) in peeked
+        return guard
+
+    def _cond_consumers(self):
+        """{function: regex}: consumes >= 1 character whenever the regex matches the peeked character:
+        `c = reader.peek(); while RX.match(c): c = reader.next_char()`, or a function whose first
+        statement calls such a function."""
+        out = {}
+        for name, fn in self.fns.items():
+            al = self.aliases[name]
+            loops = [s for s in fn.body if isinstance(s, ast.While)]
+            if len(loops) != 1:
+                continue
+            w = loops[0]
+            t = w.test
+            if not (isinstance(t, ast.Call) and isinstance(t.func, ast.Attribute) and t.func.attr == "match" and isinstance(t.func.value, ast.Name) and len(t.args) == 1 and isinstance(t.args[0], ast.Name)):
+                continue
+            var = t.args[0].id
+            before = fn.body[: fn.body.index(w)]
+            init = [s for s in before if isinstance(s, ast.Assign) and P.un(s.targets[0]) == var and _reader_op(s.value, al) == "peek"]
+            # the body (straight-line top-level statements) consumes and re-reads the loop variable
+            consumes = [s for s in w.body if isinstance(s, (ast.Assign, ast.Expr)) and any(_reader_op(c, al) in CONSUME for c in P.calls(s))]
+            step = [s for s in w.body if isinstance(s, ast.Assign) and P.un(s.targets[0]) == var and _reader_op(s.value, al) in READS]
+            if init and step and consumes and all(isinstance(s, (ast.Assign, ast.Expr)) for s in w.body):
+                out[name] = t.func.value.id
+        changed = True
+        while changed:
+            changed = False
+            for name, fn in self.fns.items():
+                if name in out:
+                    continue
+                body = [s for s in fn.body if not (isinstance(s, ast.Expr) and isinstance(s.value, ast.Constant))]
+                if body and isinstance(body[0], ast.Expr) and isinstance(body[0].value, ast.Call) and P.un(body[0].value.func) in out:
+                    out[name] = out[P.un(body[0].value.func)]
+                    changed = True
+        return out
+
+    def call_sites(self, callee):
+        for name in self.fns:
+            for nd in self.cfgs[name].nodes:
+                for c in _node_calls(nd):
+                    if P.un(c.func) == callee:
+                        yield name, nd, c
+
+    def _guarded_everywhere(self, w):
+        rx = self.condc[w]
+        sites = list(self.call_sites(w))
+        return bool(sites) and all(self.cfgs[name].edge_dominated(nd, self._guard_pred(name, rx)) for name, nd, _ in sites)
+
+    def table_of_call(self, name, c):
+        """`read_fn(ctx)` where `read_fn := TABLE.get(char)`."""
+        if isinstance(c.func, ast.Name):
+            for n in ast.walk(self.fns[name]):
+                if isinstance(n, ast.NamedExpr) and n.target.id == c.func.id and isinstance(n.value, ast.Call) and isinstance(n.value.func, ast.Attribute) and n.value.func.attr == "get" and P.un(n.value.func.value) in self.tables:
+                    return P.un(n.value.func.value)
+        return None
+
+    def progress_nodes(self, name):
+        fn, g, al = self.fns[name], self.cfgs[name], self.aliases[name]
+        first = next((s for s in fn.body if not (isinstance(s, ast.Expr) and isinstance(s.value, ast.Constant))), None)
+        out = []
+        for nd in g.nodes:
+            if nd.ast is None or nd.kind not in ("stmt", "test", "iter", "with") or isinstance(nd.ast, (ast.FunctionDef, ast.AsyncFunctionDef, ast.ClassDef)):
+                continue
+
+            def pred(c, nd=nd):
+                if _reader_op(c, al) in CONSUME:
+                    return True
+                callee = P.un(c.func)
+                if callee in self.consuming:
+                    return True
+                if callee in self.condc:
+                    rx = self.condc[callee]
+                    if g.edge_dominated(nd, self._guard_pred(name, rx)):
+                        return True
+                    # inside a function that is itself entered only under the guard
+                    if name in self.condc and self.condc[name] == rx and self.guarded.get(name) and nd.ast is first:
+                        return True
+                t = self.table_of_call(name, c)
+                if t is not None:
+                    return all(
+                        (isinstance(v, ast.Name) and v.id in self.consuming) or (isinstance(v, ast.Constant) and v.value is None) or (k == "" and isinstance(v, ast.Lambda))
+                        for k, v in self.tables[t].items()
+                    )
+                return False
+            target = nd.ast.items[0].context_expr if nd.kind == "with" else (nd.ast.iter if nd.kind == "iter" else nd.ast)
+            if _certain(target, pred):
+                out.append(nd)
+        return out
+
+    def first_calls(self, name):
+        """Reader functions that `name` may call before it has consumed anything."""
+        g = self.cfgs[name]
+        prog = set(n.id for n in self.progress_nodes(name))
+        r = g.reach([g.entry], avoid_edges=lambda a, b, lab: a.id in prog and lab != "exc")
+        out = set()
+        for i in r:
+            for c in _node_calls(g.nodes[i]):
+                callee = P.un(c.func)
+                if callee in self.fns:
+                    out.add(callee)
+                t = self.table_of_call(name, c)
+                if t:
+                    out |= {v.id for v in self.tables[t].values() if isinstance(v, ast.Name)}
+        return out
+
+
+class _EofMode:
+    """Abstract execution of reader functions in the state 'the stream is exhausted': every
+    peek/next_char/advance returns ''.  Values: '' (EMPTY), the ctx.eof sentinel (SENT), constants,
+    dispatch-table entries, TOP.  Atomic branch tests over those values are decided (regex matches
+    on '' are computed from the pattern constants); everything else follows both edges."""
+
+    def __init__(self, pr: _Progress):
+        self.pr = pr
+        self.fns, self.cfgs, self.regexes, self.tables = pr.fns, pr.cfgs, pr.regexes, pr.tables
+        self.memo = {}
+        self.active = set()
+
+    def ev(self, e, env, name):
+        if isinstance(e, ast.NamedExpr):
+            v = self.ev(e.value, env, name)
+            env[e.target.id] = v
+            return v
+        if isinstance(e, ast.Name):
+            return env.get(e.id, TOP)
+        if isinstance(e, ast.Constant):
+            return ("c", e.value)
+        if isinstance(e, ast.Attribute) and P.un(e) == "ctx.eof":
+            return SENT
+        if isinstance(e, ast.Call):
+            for a in e.args:
+                if isinstance(a, ast.NamedExpr):
+                    self.ev(a, env, name)
+            if _reader_op(e, self.pr.aliases[name]) in READS:
+                return EMPTY
+            f = e.func
+            if P.un(f) in ("cast", "typing.cast") and len(e.args) == 2:
+                return self.ev(e.args[1], env, name)
+            if isinstance(f, ast.Attribute) and f.attr == "get" and P.un(f.value) in self.tables and e.args:
+                if self.ev(e.args[0], env, name) == EMPTY:
+                    t = self.tables[P.un(f.value)]
+                    return ("tv", t[""]) if "" in t else ("c", None)
+                return TOP
+            if isinstance(f, ast.Name):
+                tgt = env.get(f.id)
+                if isinstance(tgt, tuple) and tgt[0] == "tv":
+                    node = tgt[1]
+                    if isinstance(node, ast.Lambda):
+                        return SENT if P.un(node.body) == "ctx.eof" else TOP
+                    if isinstance(node, ast.Name) and node.id in self.fns:
+                        return self.ret_value(node.id)
+                    return TOP
+                if f.id in self.fns:
+                    return self.ret_value(f.id)
+        return TOP
+
+    def ret_value(self, name):
+        rets, _ = self.summary(name)
+        return next(iter(rets)) if len(rets) == 1 else TOP
+
+    def truth(self, e, env, name):
+        if isinstance(e, ast.UnaryOp) and isinstance(e.op, ast.Not):
+            t = self.truth(e.operand, env, name)
+            return None if t is None else (not t)
+        if isinstance(e, ast.Compare) and len(e.ops) == 1:
+            left = self.ev(e.left, env, name)
+            rnode, op = e.comparators[0], e.ops[0]
+            if isinstance(op, (ast.In, ast.NotIn)):
+                res = None
+                if left == EMPTY:
+                    if isinstance(rnode, (ast.Set, ast.Tuple, ast.List)) and all(isinstance(x, ast.Constant) for x in rnode.elts):
+                        res = "" in [x.value for x in rnode.elts]
+                    elif P.un(rnode) in self.tables:
+                        res = "" in self.tables[P.un(rnode)]
+                if res is None:
+                    return None
+                return res if isinstance(op, ast.In) else not res
+            right = self.ev(rnode, env, name)
+
+            def conc(v):
+                if v == EMPTY:
+                    return True, ""
+                if isinstance(v, tuple) and v[0] == "c":
+                    return True, v[1]
+                return False, None
+            if isinstance(op, (ast.Eq, ast.NotEq)):
+                (kl, vl), (kr, vr) = conc(left), conc(right)
+                if kl and kr:
+                    res = vl == vr
+                    return res if isinstance(op, ast.Eq) else not res
+                return None
+            if isinstance(op, (ast.Is, ast.IsNot)):
+                res = None
+                none = ("c", None)
+                if left == SENT and right == SENT:
+                    res = True
+                elif isinstance(left, tuple) and left[0] == "tv" and right == none:
+                    res = False
+                elif left == none and right == none:
+                    res = True
+                elif left == EMPTY and right == none:
+                    res = False
+                if res is None:
+                    return None
+                return res if isinstance(op, ast.Is) else not res
+            return None
+        if isinstance(e, ast.Call) and isinstance(e.func, ast.Attribute):
+            recv = e.func.value
+            if isinstance(recv, ast.Name) and recv.id in self.regexes and e.func.attr in ("match", "fullmatch", "search") and len(e.args) == 1:
+                if self.ev(e.args[0], env, name) == EMPTY:
+                    return getattr(re.compile(self.regexes[recv.id]), e.func.attr)("") is not None
+                return None
+            if e.func.attr in ("isnumeric", "isalnum", "isdigit", "isalpha", "isspace", "isdecimal", "isupper", "islower") and not e.args:
+                return False if self.ev(recv, env, name) == EMPTY else None
+        v = self.ev(e, env, name)
+        if v == EMPTY:
+            return False
+        if isinstance(v, tuple) and v[0] == "c":
+            return bool(v[1])
+        if isinstance(v, tuple) and v[0] == "tv":
+            return True
+        return None
+
+    def step(self, nd, env, name):
+        env = dict(env)
+        a = nd.ast
+        labels = None
+        normal_ok = True
+        if nd.kind == "test":
+            t = self.truth(a, env, name)
+            if t is not None:
+                labels = {t}
+        elif nd.kind == "stmt" and a is not None and not isinstance(a, (ast.FunctionDef, ast.AsyncFunctionDef, ast.ClassDef)):
+            if isinstance(a, ast.Assign) and len(a.targets) == 1 and isinstance(a.targets[0], ast.Name):
+                env[a.targets[0].id] = self.ev(a.value, env, name)
+            elif isinstance(a, ast.AnnAssign) and a.value is not None and isinstance(a.target, ast.Name):
+                env[a.target.id] = self.ev(a.value, env, name)
+            elif isinstance(a, (ast.Assign, ast.AugAssign, ast.AnnAssign)):
+                for t in (a.targets if isinstance(a, ast.Assign) else [a.target]):
+                    for n in ast.walk(t):
+                        if isinstance(n, ast.Name):
+                            env[n.id] = TOP
+            else:
+                for n in P.walk_local(a, include_self=True):
+                    if isinstance(n, ast.NamedExpr):
+                        self.ev(n, env, name)
+            for c in P.walk_local(a, include_self=True):
+                if isinstance(c, ast.Call) and isinstance(c.func, ast.Name) and c.func.id in self.fns:
+                    if not self.summary(c.func.id)[0]:
+                        normal_ok = False  # the callee cannot return normally at end of input
+        elif nd.kind == "iter" and a is not None:
+            for n in ast.walk(a.target):
+                if isinstance(n, ast.Name):
+                    env[n.id] = TOP
+        elif nd.kind == "with" and a is not None:
+            for it in a.items:
+                if it.optional_vars is not None:
+                    for n in ast.walk(it.optional_vars):
+                        if isinstance(n, ast.Name):
+                            env[n.id] = TOP
+        elif nd.kind == "handler" and a is not None and a.name:
+            env[a.name] = TOP
+        succ = []
+        for m, lab in nd.succ:
+            if lab == "exc":
+                succ.append(m)
+            elif labels is not None and lab in (True, False) and lab not in labels:
+                continue
+            elif normal_ok:
+                succ.append(m)
+        return env, succ
+
+    def explore(self, name, start, env0):
+        """-> (abstract return values, may raise, a cycle of CFG nodes in the state graph or None)"""
+        g = self.cfgs[name]
+        rets, raises, cyc = set(), False, None
+
+        def key(nd, env):
+            return nd.id, frozenset(env.items())
+
+        def expand(k):
+            nd = g.nodes[k[0]]
+            if nd is g.exit or nd is g.raise_:
+                return []
+            env = dict(k[1])
+            if nd.kind == "stmt" and isinstance(nd.ast, ast.Return):
+                rets.add(self.ev(nd.ast.value, dict(env), name) if nd.ast.value is not None else ("c", None))
+            env2, ss = self.step(nd, env, name)
+            return [key(m, env2) for m in ss]
+        root = key(start, env0)
+        color = {root: 1}
+        path = [root]
+        st = [(root, iter(expand(root)))]
+        while st:
+            k, it = st[-1]
+            nxt = next(it, None)
+            if nxt is None:
+                color[k] = 2
+                st.pop()
+                path.pop()
+                continue
+            if nxt[0] == g.raise_.id:
+                raises = True
+            if nxt[0] == g.exit.id and not (g.nodes[k[0]].kind == "stmt" and isinstance(g.nodes[k[0]].ast, ast.Return)):
+                rets.add(("c", None))
+            c = color.get(nxt)
+            if c == 1:
+                if cyc is None:
+                    cyc = [g.nodes[p[0]] for p in path[path.index(nxt):]]
+                continue
+            if c == 2:
+                continue
+            color[nxt] = 1
+            path.append(nxt)
+            st.append((nxt, iter(expand(nxt))))
+        return rets, raises, cyc
+
+    def summary(self, name):
+        if name in self.memo:
+            return self.memo[name]
+        if name in self.active:
+            return {TOP}, True
+        fn = self.fns[name]
+        if any(isinstance(x, (ast.Yield, ast.YieldFrom)) for x in P.walk_local(fn)):
+            self.memo[name] = ({TOP}, True)
+            return self.memo[name]
+        self.active.add(name)
+        rets, raises, _ = self.explore(name, self.cfgs[name].entry, {})
+        self.active.discard(name)
+        self.memo[name] = (rets, raises)
+        return self.memo[name]
+
+
+def _find_cycle(edges):
+    color = {}
+
+    def dfs(u, path):
+        color[u] = 1
+        path.append(u)
+        for v in sorted(edges.get(u, ())):
+            if color.get(v) == 1:
+                return path[path.index(v):] + [v]
+            if color.get(v) is None:
+                r = dfs(v, path)
+                if r:
+                    return r
+        path.pop()
+        color[u] = 2
+        return None
+    for u in sorted(edges):
+        if color.get(u) is None:
+            r = dfs(u, [])
+            if r:
+                return r
+    return None
+
+
+@rule("C16.R5", floor=36)
+def r5_reading_terminates(ctx):
+    """Termination of reading, split into the parts visible in the code: (a) every cycle of every
+    `while` loop of a reader function consumes at least one character (a direct next_char/advance
+    on the stream, or a call of a reader proven -- least fixpoint -- to consume before it returns),
+    and never un-reads with pushback on the way round; (b) in the state 'stream exhausted' (all reads
+    return '') no loop has a cycle in its abstract state graph, i.e. every loop exits at end of
+    input; (c) no recursion between stream readers re-enters before anything was consumed; (d) the
+    stream's next_char moves on every path and advance goes through it."""
+    fns = _reader_functions(ctx)
+    pr = _Progress(ctx, fns)
+    ctx.note(f"C16.R5 consuming readers: {sorted(pr.consuming)}; conditional consumers: {pr.condc}")
+
+    # reviewed seeds: their stated reasons are checked
+    if "_read_num" in fns:
+        rx = pr.regexes
+        sites = list(pr.call_sites("_read_num"))
+        ok_sites = bool(sites) and all(pr.cfgs[n].edge_dominated(nd, pr._guard_pred(n, "begin_num_chars")) for n, nd, _ in sites)
+        ok_rx = False
+        if "begin_num_chars" in rx and "maybe_num_chars" in rx:
+            b, m = re.compile(rx["begin_num_chars"]), re.compile(rx["maybe_num_chars"])
+            ok_rx = all(ch == "-" or m.match(ch) for ch in map(chr, range(0x3000)) if b.match(ch))
+        al = pr.aliases["_read_num"]
+        dash = [t for t in ast.walk(fns["_read_num"]) if isinstance(t, ast.If) and P.un(t.test) in ("char == '-'", "'-' == char") and any(_reader_op(c, al) in CONSUME for c in P.calls(t.body[0]))]
+        ok = ok_sites and ok_rx and bool(dash)
+        ctx.ob("C16.R5", f"{RD}::_read_num::consumes its first character (reviewed: guard at call sites, begin_num_chars <= maybe_num_chars + '-')", RD, fns["_read_num"].lineno, ok,
+               "" if ok else "the reviewed reason no longer holds: _read_num may return without having consumed anything, so a caller's loop may spin",
+               witness=R5_REVIEWED["_read_num"])
+    else:
+        raise AnalysisError("anchor vanished: _read_num")
+    if "_read_namespaced" in fns:
+        fn = fns["_read_namespaced"]
+        al = pr.aliases["_read_namespaced"]
+        ok_rx = "identifier_literal" in pr.regexes and re.compile(pr.regexes["identifier_literal"]).fullmatch("") is None
+        ok_raise = any(isinstance(t, ast.If) and "identifier_literal.fullmatch(" in P.un(t.test) and "is None" in P.un(t.test) and isinstance(t.body[0], ast.Raise) for t in ast.walk(fn))
+        appends = [c for c in P.calls(fn) if isinstance(c.func, ast.Attribute) and c.func.attr == "append"]
+        ok_app = bool(appends) and all(any(_reader_op(c2, al) in CONSUME for s in P.block_of(P.stmt_of(c)) for c2 in P.calls(s)) for c in appends)
+        ok = ok_rx and ok_raise and ok_app
+        ctx.ob("C16.R5", f"{RD}::_read_namespaced::returns only after consuming a non-empty token (reviewed)", RD, fn.lineno, ok,
+               "" if ok else "the reviewed reason no longer holds: _read_namespaced may return an empty or unconsumed token, so a caller's loop may spin",
+               witness=R5_REVIEWED["_read_namespaced"])
+    else:
+        raise AnalysisError("anchor vanished: _read_namespaced")
+
+    ok = "_read_next" in pr.consuming
+    ctx.ob("C16.R5", f"{RD}::_read_next::consumes at least one character or returns the EOF sentinel", RD, fns["_read_next"].lineno, ok,
+           "" if ok else "some reader reachable from _read_next's dispatch returns normally without consuming: not consuming: "
+           + ", ".join(sorted(v.id for t in pr.tables.values() for v in t.values() if isinstance(v, ast.Name) and v.id not in pr.consuming)))
+
+    # (a) + (b) per loop
+    em = _EofMode(pr)
+    nloops = 0
+    for name, fn in sorted(fns.items()):
+        g = pr.cfgs[name]
+        al = pr.aliases[name]
+        heads = [nd for nd in g.nodes if nd.kind == "join" and isinstance(nd.ast, ast.While)]
+        if not heads:
+            continue
+        prog = pr.progress_nodes(name)
+        push = [nd for nd in g.nodes if any(_reader_op(c, al) == "pushback" for c in _node_calls(nd))]
+        for i, h in enumerate(sorted(heads, key=lambda n: n.line)):
+            nloops += 1
+            tag = f"{RD}::{name}::while#{i + 1} `{P.un(h.ast.test)[:50]}`"
+            spins = g.can_reach_without(h, [h], prog)
+            why = ""
+            if spins:
+                p = g.path_example(h, h, avoid=prog)
+                from ..pycfg import describe_path
+                why = "a cycle of this loop consumes nothing from the stream, so the same character is seen again forever: " + describe_path(p)
+            ctx.ob("C16.R5", tag + " consumes on every cycle", RD, h.line, not spins, why)
+            body = g.reach([m for m, _ in h.succ])
+            unread = [p for p in push if p.id in body and h.id in g.reach([p])]
+            ctx.ob("C16.R5", tag + " no pushback on a cycle", RD, h.line, not unread,
+                   "" if not unread else f"pushback at line {unread[0].line} lies on a cycle of the loop: the character consumed in this iteration is un-read again")
+            _, _, cyc = em.explore(name, h, {})
+            ctx.ob("C16.R5", tag + " exits at end of input", RD, h.line, cyc is None,
+                   "" if cyc is None else "once the stream is exhausted (every read returns '') the loop does not exit: "
+                   + " -> ".join(f"L{n.line}" for n in cyc if n.kind != "join"),
+                   witness="input ending inside this construct")
+    if nloops == 0:
+        raise AnalysisError("no while loops found in the reader")
+
+    # (c) recursion
+    stream = {n for n, f in fns.items() if any(_reader_op(c, pr.aliases[n]) for c in P.calls(f))}
+    changed = True
+    while changed:
+        changed = False
+        for n, f in fns.items():
+            if n not in stream and any(P.un(c.func) in stream for c in P.calls(f)):
+                stream.add(n)
+                changed = True
+    if "_read_next" in stream:
+        stream |= {v.id for t in pr.tables.values() for v in t.values() if isinstance(v, ast.Name) and v.id in fns}
+    edges = {n: {m for m in pr.first_calls(n) if m in stream} for n in stream}
+    cyc = _find_cycle(edges)
+    ctx.ob("C16.R5", f"{RD}::no recursion between stream readers before a character is consumed ({len(stream)} readers)", RD, 0, cyc is None,
+           "" if cyc is None else "readers can re-enter each other without consuming: " + " -> ".join(cyc))
+
+    # (d) the stream itself
+    tree = _tree(ctx)
+    nc = P.find_def(tree, "StreamReader.next_char")
+    adv = P.find_def(tree, "StreamReader.advance")
+    if nc is None or adv is None:
+        raise AnalysisError("anchor vanished: StreamReader.next_char/advance")
+    g = CFG(nc)
+    moves = [nd for nd in g.nodes if nd.kind == "stmt" and (
+        (isinstance(nd.ast, ast.AugAssign) and P.un(nd.ast.target) == "self._idx" and isinstance(nd.ast.op, ast.Add))
+        or any(isinstance(c.func, ast.Attribute) and c.func.attr == "append" and P.un(c.func.value) == "self._buffer" for c in _node_calls(nd)))]
+    ok = bool(moves) and g.exit.id not in g.reach([g.entry], avoid=moves, follow_exc=False)
+    ctx.ob("C16.R5", f"{RD}::StreamReader.next_char moves the read position on every path", RD, nc.lineno, ok,
+           "" if ok else "a path through next_char neither steps the pushback index nor appends the next character")
+    g = CFG(adv)
+    calls = [nd for nd in g.nodes if any(P.un(c.func) == "self.next_char" for c in _node_calls(nd))]
+    ok = bool(calls) and g.exit.id not in g.reach([g.entry], avoid=calls, follow_exc=False)
+    ctx.ob("C16.R5", f"{RD}::StreamReader.advance goes through next_char", RD, adv.lineno, ok, "" if ok else "advance can return without moving the read position")
+
+
+# ---------------------------------------------------------------------------------------------
 # R6 REPL cue
 
 
@@ -685,6 +1266,22 @@ SELFTEST = [
      "old": "    \"@\": _read_deref,\n", "new": "    \"@\": _read_deref,\n    \"$\": _read_deref,\n"},
     {"name": "prompt swallows EOF as error", "file": PROMPT, "expect": "C16.R6",
      "old": "            except reader.UnexpectedEOFError:\n                event.current_buffer.insert_text(\"\\n\")\n            except reader.SyntaxError as e:", "new": "            except reader.SyntaxError as e:"},
+    {"name": "line comment forgets end of input", "file": RD, "expect": "C16.R5",
+     "old": "        if char == \"\":\n            return ctx.eof\n        reader.advance()\n", "new": "        reader.advance()\n"},
+    {"name": "whitespace skipped without advancing", "file": RD, "expect": "C16.R5", "first": True,
+     "old": "        if whitespace_chars.match(char):\n            reader.advance()\n            continue\n", "new": "        if whitespace_chars.match(char):\n            continue\n"},
+    {"name": "token loop peeks instead of consuming", "file": RD, "expect": "C16.R5",
+     "old": "        reader.next_char()\n        tokens.append(char)\n", "new": "        tokens.append(char)\n"},
+    {"name": "string reader drops its EOF test", "file": RD, "expect": "C16.R5", "first": True,
+     "old": "        char = reader.next_char()\n        if char == \"\":\n            raise ctx.eof_error(\"Unexpected EOF in string\")\n", "new": "        char = reader.next_char()\n"},
+    {"name": "next_char stops moving once the pushback window is used", "file": RD, "expect": "C16.R5",
+     "old": "        if self._idx < StreamReader.DEFAULT_INDEX:\n            self._idx += 1\n        else:", "new": "        if self._idx < StreamReader.DEFAULT_INDEX:\n            pass\n        else:"},
+    {"name": "twin: comment loop tests end of input first", "file": RD, "expect": None,
+     "old": "        if newline_chars.match(char):\n            reader.advance()\n            return COMMENT\n        if char == \"\":\n            return ctx.eof\n",
+     "new": "        if char == \"\":\n            return ctx.eof\n        if newline_chars.match(char):\n            reader.advance()\n            return COMMENT\n"},
+    {"name": "twin: whitespace loop written with advance()", "file": RD, "expect": None,
+     "old": "    while whitespace_chars.match(char):\n        char = reader.next_char()\n    return char\n",
+     "new": "    while whitespace_chars.match(char):\n        reader.advance()\n        char = reader.peek()\n    return char\n"},
     # twins
     {"name": "number conversions lose their handler (the repaired defect)", "file": RD, "expect": "C16.R1",
      "old": "    except (ValueError, ArithmeticError) as e:", "new": "    except KeyError as e:"},
